@@ -644,4 +644,52 @@ theorem dropPass2_not_trivial (S : Schema) {ty0 : TypeId} {a0 : Attrs} {m0 : Mar
   · rw [boundary_fitsTrivially S hf hn d _ _ p (.inl hlt) hat C]
     exact hmiss
 
+/-! ### typing inside text: the inside-text guard follows from the approval -/
+
+/-- in a `TextStable` schema, if the parent takes a text node in front of a text child, it takes `text n text` in its place
+    for every text node `n` whose marks it allows -/
+theorem canReplace_text_between (S : Schema) (hts : TextStableP S) (tyP : TypeId) (pre post : List Node)
+    (s : List Nat) (m : Marks) (n : Node) (hnt : S.tyOf n = S.textTy)
+    (hvL : S.validContent tyP (pre ++ .text s m :: post) = true)
+    (hm : (S.nodeType tyP).allowsMarks n.marks = true)
+    (hcr : S.canReplaceWith tyP (pre ++ .text s m :: post) pre.length pre.length S.textTy [] = some true) :
+    S.canReplace tyP (pre ++ .text s m :: post) (pre.length + 1) (pre.length + 1) ([n] ++ [.text s m]) 0 2
+      = some true := by
+  have hall := allowsMarks_of_valid S _ _ hvL (.text s m) (by simp)
+  unfold Schema.canReplaceWith Schema.contentMatchAt at hcr
+  simp only [List.isEmpty_nil, Bool.not_true, Bool.false_and, Bool.false_eq_true, if_false] at hcr
+  have e1 : (pre ++ Node.text s m :: post).take pre.length = pre := by simp
+  have e2 : (pre ++ Node.text s m :: post).drop pre.length = .text s m :: post := by simp
+  have e3 : S.types (Node.text s m :: post) = S.textTy :: S.types post := by simp [Schema.types, Schema.tyOf, Node.tyOr]
+  rw [e1, e2, e3] at hcr
+  split at hcr
+  · simp at hcr
+  · rename_i q0 hq0
+    split at hcr
+    · simp at hcr
+    · rename_i q1 hq1
+      split at hcr
+      · simp at hcr
+      · rename_i q2 hq2
+        simp only [Option.some.injEq] at hcr
+        rw [Dfa.run_cons] at hq2
+        cases hq1' : (S.dfa tyP).matchType q1 S.textTy with
+        | none => simp [hq1'] at hq2
+        | some q1' =>
+          have hst := hts tyP q0 q1 q1' hq1 hq1'
+          subst hst
+          simp only [hq1', Option.bind_some] at hq2
+          unfold Schema.canReplace Schema.contentMatchAt
+          have t1 : S.types ((pre ++ Node.text s m :: post).take (pre.length + 1)) = S.types pre ++ [S.textTy] := by
+            rw [take_mid]; simp [Schema.types, Schema.tyOf, Node.tyOr]
+          have t2 : (pre ++ Node.text s m :: post).drop (pre.length + 1) = post := drop_mid _ _ _
+          have t3 : S.types ((([n] ++ [Node.text s m]).take 2).drop 0) = [S.textTy, S.textTy] := by
+            have : S.tyOf (Node.text s m) = S.textTy := rfl
+            simp [Schema.types, hnt, this]
+          rw [t1, t2, Dfa.run_append, hq0]
+          simp only [Option.bind_some, Dfa.run, hq1, t3, hq1', hq2]
+          simp only [hcr, Bool.true_and, List.take, List.drop, List.cons_append, List.nil_append, List.all_cons,
+            List.all_nil, Bool.and_true, Option.some.injEq, Bool.and_eq_true]
+          exact ⟨hm, hall⟩
+
 end PM
